@@ -157,25 +157,29 @@ class Live(JupyterMixin, RenderHook):
             self._started = False
             vertical_overflow = self.vertical_overflow
             try:
-                if self.auto_refresh and self._refresh_thread is not None:
-                    self._refresh_thread.stop()
-                # allow it to fully render on the last even if overflow
-                self.vertical_overflow = "visible"
-                if not self.console.is_jupyter:
-                    self.refresh()
-                if self.console.is_terminal:
-                    self.console.line()
-            finally:
-                # "visible" is only for the last frame; a later start() uses the configured method again
-                self.vertical_overflow = vertical_overflow
-                self._disable_redirect_io()
-                self.console.pop_render_hook()
-                self.console.show_cursor(True)
+                try:
+                    if self.auto_refresh and self._refresh_thread is not None:
+                        self._refresh_thread.stop()
+                    # allow it to fully render on the last even if overflow
+                    self.vertical_overflow = "visible"
+                    if not self.console.is_jupyter:
+                        self.refresh()
+                    if self.console.is_terminal:
+                        self.console.line()
+                finally:
+                    # "visible" is only for the last frame; a later start() uses the configured method again
+                    self.vertical_overflow = vertical_overflow
+                    self._disable_redirect_io()
+                    self.console.show_cursor(True)
 
-            if self.transient:
-                self.console.control(self._live_render.restore_cursor())
-            # the frame is no longer live: a later start() must not erase it (or the lines printed since)
-            self._live_render._shape = None
+                if self.transient:
+                    self.console.control(self._live_render.restore_cursor())
+                # the frame is no longer live: a later start() must not erase it (or the lines printed since)
+                self._live_render._shape = None
+            finally:
+                # the hook goes last: a print from another thread waits in process_renderables() until the
+                # display is gone instead of writing between the last frame and its removal
+                self.console.pop_render_hook()
             if self.ipy_widget is not None:  # pragma: no cover
                 if self.transient:
                     self.ipy_widget.close()
@@ -270,6 +274,9 @@ class Live(JupyterMixin, RenderHook):
         if self.console.is_terminal:
             # lock needs acquiring as user can modify live_render renerable at any time unlike in Progress.
             with self._lock:
+                if self not in self.console._render_hooks:
+                    # the display was stopped (by another thread) after this print collected its hooks
+                    return renderables
                 # determine the control command needed to clear previous rendering
                 renderables = [
                     self._live_render.position_cursor(),
